@@ -475,6 +475,13 @@ flush:
 	}
 	res.Completed = estOf(r.c) && estOf(r.s)
 	res.CErr, res.SErr = errString(r.c.hsErr), errString(r.s.hsErr)
+	if res.Completed && ticketRetx > 0 && len(res.Lab) == 0 {
+		// C17 "intervals start at the configured value": the NewSessionTicket flight needed retransmissions; once it is
+		// acknowledged, the NEXT post-handshake flight of the server (a KeyUpdate) starts from the configured interval again
+		if v := hs13NextFlightInterval(r, h, &scen); v != "" {
+			law("%s", v)
+		}
+	}
 	if os.Getenv("VERIF_KEEP_EVENTS") != "" {
 		res.Events = r.rec.snapshot()
 	}
@@ -483,6 +490,75 @@ flush:
 	}
 
 	return res
+}
+
+// hs13NextFlightInterval lets the ticket flight finish (everything in flight is delivered), starts a KeyUpdate on the server,
+// keeps its datagrams back and fires the server's timer twice: the intervals reported for that flight must be the
+// configured one and its double (constant without backoff).  Returns a law text or "".
+func hs13NextFlightInterval(r *labRun, h *hs13Driver, scen *scenCfg) string {
+	for round := 0; round < 12; round++ { // drain: the ticket must be acknowledged before a new flight may start
+		h.absorb()
+		moved := false
+		for kind, q := range h.pending {
+			for _, t := range q {
+				r.net.Deliver(dirOf(sender13(kind)), t.idx)
+				moved = true
+			}
+			h.pending[kind] = nil
+		}
+		if !moved {
+			break
+		}
+		if !waitQuiet13(r, 2*time.Second) {
+			return ""
+		}
+	}
+	mark := len(r.rec.snapshot())
+	ctx, cancel := context.WithTimeout(context.Background(), 3*time.Second)
+	defer cancel()
+	done := make(chan error, 1)
+	go func() { done <- r.s.conn.UpdateKeys(ctx, KeyUpdateOptions{}) }()
+	time.Sleep(2 * time.Millisecond)
+	if !waitQuiet13(r, 2*time.Second) {
+		return ""
+	}
+	var got []int64
+	for k := 0; k < 2; k++ {
+		if !r.s.fire() || !waitQuiet13(r, 2*time.Second) {
+			break
+		}
+	}
+	kuSeq := -1 // message sequence of the KeyUpdate flight started after the mark (none: it is queued behind the ticket)
+	for _, e := range r.rec.snapshot()[mark:] {
+		if e["ev"] == "ph.start" && e["side"] == "s" && e["kind"] == "keyupdate" {
+			kuSeq, _ = e["msgseq"].(int)
+		}
+		if e["ev"] == "ph.retx" && e["side"] == "s" && kuSeq >= 0 {
+			if ms, _ := e["msgseq"].(int); ms != kuSeq {
+				continue
+			}
+			if v, ok := e["interval"].(int64); ok {
+				got = append(got, v)
+			}
+		}
+	}
+	cancel()
+	<-done
+	if len(got) == 0 {
+		return "" // the flight did not start (queued behind an unacknowledged ticket): nothing to judge
+	}
+	want := int64(hsBaseInterval)
+	for i, g := range got {
+		if g != want {
+			return fmt.Sprintf("C17 timer law: retransmission %d of a NEW post-handshake flight (KeyUpdate after a ticket flight that was retransmitted) came after %v, expected %v",
+				i+1, time.Duration(g), time.Duration(want))
+		}
+		if !scen.NoBackoff {
+			want *= 2
+		}
+	}
+
+	return ""
 }
 
 // waitQuiet13: quiescence for DTLS 1.3 endpoints - a flight machine in Finished runs the post-handshake loop, which is
